@@ -129,8 +129,12 @@ def op_gc(w: World, op: dict):
     from dvc_data.hashfile.gc import gc
 
     odb = w.odb(op["s"], read_only=bool(op.get("ro")))
-    used = _his(w, op["used"]) + _his(w, op.get("foreign", []), name="sha256")
-    act = {"op": "Gc", "s": op["s"], "used": sorted(op["used"]), "foreign": sorted(op.get("foreign", [])),
+    ord_ = op.get("ord", "used-first")
+    # the foreign ids carry the very same values under another algorithm name (as the legacy md5-dos2unix ids of binary
+    # files do next to their md5 ids)
+    foreign = _his(w, op.get("foreign", []), name=("md5-dos2unix", "sha256")[len(op["used"]) % 2])
+    used = foreign + _his(w, op["used"]) if ord_ == "foreign-first" else _his(w, op["used"]) + foreign
+    act = {"op": "Gc", "s": op["s"], "used": sorted(op["used"]), "foreign": sorted(op.get("foreign", [])), "ord": ord_,
            "shallow": op["shallow"], "dry": op["dry"], "ro": bool(op.get("ro"))}
     try:
         n = gc(odb, used, shallow=op["shallow"], dry=op["dry"])
@@ -571,7 +575,7 @@ def check_C06(run: core.Run, replay=None):
         gen = tlc_generate("gc")
         cases = []
         for c in _sample(gen["gc"], 2500 if quick else 10**9, rng):
-            op = {"op": "Gc", "s": c["s"], "used": c["used"], "foreign": c["foreign"], "shallow": c["shallow"],
+            op = {"op": "Gc", "s": c["s"], "used": c["used"], "foreign": c["foreign"], "ord": c["ord"], "shallow": c["shallow"],
                   "dry": c["dry"], "ro": c["ro"]}
             cases.append({"init": c["init"], "ops": [op], "kind": "gc"})
         cases += sim_cases("ObjectStore_sim_gc.cfg", 150 if quick else 1500, 10, run.seed + 5)
